@@ -29,11 +29,52 @@ Definition positive_sibling (d : decl) (g : grammar) (c : nat) : bool :=
   | None => false
   end.
 
+(* the chain of production choices that leads from the declared class c to the produced class c': at every abstract
+   type on the way, the alternative taken must not be a zero-weight one while a positive-weight, buildable one exists.
+   A field declared with a concrete class involves no choice. *)
+Definition available_positive (d : decl) (g : grammar) (l : list nat) : bool :=
+  existsb (fun s => negb (declared_zero d s) && match gdist_ty g (TSym s) with Ok v => v <? INF | Err _ => false end) l.
+
+Fixpoint choice_ok (d : decl) (g : grammar) (fuel : nat) (c c' : nat) : bool :=
+  match fuel with
+  | O => true
+  | S f =>
+      if is_abstract d (SC c)
+      then match get_alts (r_alts (g_reg g)) c with
+           | Some l =>
+               match find (fun p => prod_ofb d (g_reg g) (S (length (d_classes d))) p c') l with
+               | Some p => negb (declared_zero d p && available_positive d g l) && choice_ok d g f p c'
+               | None => true
+               end
+           | None => true
+           end
+      else true
+  end.
+
+Fixpoint weights_respected (d : decl) (g : grammar) (fuel : nat) (t : ty) (v : value) : bool :=
+  match fuel with
+  | O => true
+  | S f =>
+      let fix all2 (ts : list ty) (vs : list value) : bool :=
+        match ts, vs with
+        | t0 :: ts', v0 :: vs' => weights_respected d g f t0 v0 && all2 ts' vs'
+        | _, _ => true
+        end in
+      match t, v with
+      | TSym c, VNode c' args => choice_ok d g (S (length (d_classes d))) c c' && all2 (fields_of d (SC c')) args
+      | TList t', VList vs => forallb (weights_respected d g f t') vs
+      | TTuple ts, VTuple vs => all2 ts vs
+      | TUnion ts, _ => existsb (fun t' => wtb d (g_reg g) false (wt_fuel v) t' v && weights_respected d g f t' v) ts
+      | TAnn t' _, _ => weights_respected d g f t' v
+      | _, _ => true
+      end
+  end.
+
 Definition c19w_ok (c : scase) : bool :=
   match c with
   | KSynth d k s start o =>
       match obs_grammar d, so_res o with
-      | Some g, POk v => forallb (fun n => negb (declared_zero d n && positive_sibling d g n)) (nodes_of v)
+      | Some g, POk v => weights_respected (g_decl g) g (wt_fuel v) (TSym (d_start d)) v
       | _, _ => true
       end
   end.
